@@ -54,6 +54,12 @@ theorem ofBe_toBe {x : ℕ} (hx : x < secpQ) : ofBe (toBe x) = x := by
   have h256 : secpQ < 256 ^ KAPPA_BYTES := by decide
   rw [ofBe, toBe, beToNat_natToBe, Nat.mod_eq_of_lt (hx.trans h256), Nat.mod_eq_of_lt hx]
 
+/-- `to_bytes` of a reduced scalar is a canonical encoding -/
+theorem beToNat_toBe_lt {x : ℕ} (hx : x < secpQ) : beToNat (toBe x) < secpQ := by
+  have h256 : secpQ < 256 ^ KAPPA_BYTES := by decide
+  rw [toBe, beToNat_natToBe, Nat.mod_eq_of_lt (hx.trans h256)]
+  exact hx
+
 theorem toBe_length (x : ℕ) : (toBe x).length = KAPPA_BYTES := natToBe_length _ _
 
 /-- `to_bytes` is injective on reduced scalars -/
@@ -105,7 +111,7 @@ theorem receiverMu_id (sid beta : Bytes) (VX : List (List ℕ)) (msg : Msg2) :
 
 theorem receiverCore_id (sid beta : Bytes) (vx : List (List Bytes)) (msg : Msg2) :
     receiverCore (m := Id) h sid beta vx msg =
-      if msg.muHash ≠ receiverMu (m := Id) h sid beta (decodeTable vx) msg then .error checkFailed
+      if checkOk msg (receiverMu (m := Id) h sid beta (decodeTable vx) msg) = false then .error checkFailed
       else .ok (receiverD (gadgetVec (m := Id) h sid) beta (decodeTable vx) (decodeTable msg.aTilde)) := by
   unfold receiverCore
   show (if _ then _ else _) = _
@@ -317,6 +323,16 @@ theorem etaFinal_getD_lt (theta a eta0 : List ℕ) (k : ℕ) (hk : k < RHO) : (e
   rw [getD_map_range, if_pos hk]; exact addq_lt _ _
 
 theorem etaFinal_length (theta a eta0 : List ℕ) : (etaFinal theta a eta0).length = RHO := by simp [etaFinal]
+
+/-- the `eta` of the honest message is canonically encoded -/
+theorem etaFinal_canonical (theta a eta0 : List ℕ) : etaCanonical ((etaFinal theta a eta0).map toBe) = true := by
+  unfold etaCanonical
+  rw [List.all_eq_true]
+  intro e he
+  obtain ⟨x, hx, rfl⟩ := List.mem_map.mp he
+  unfold etaFinal at hx
+  obtain ⟨k, _, rfl⟩ := List.mem_map.mp hx
+  exact decide_eq_true (beToNat_toBe_lt (addq_lt _ _))
 
 /-- the decoded `eta` of the honest message -/
 theorem eta_decode (theta a eta0 : List ℕ) (k : ℕ) (hk : k < RHO) :
